@@ -178,6 +178,27 @@ def validate(c, binp, scripts, name, par=64, confirm=True):
     return len(by_sid) - len(rejected)
 
 
+def zero_wait_stage(c, binp, zs):
+    """initial_interval = 0 and shutdown during the retry sequence (see run()): returns the number of scripts run"""
+    by_sid = record(c, binp, zs, "zerowait", par=4)
+    for sid, lines in sorted(by_sid.items()):
+        evs = [json.loads(l) for l in lines]
+        stop_at = next(i + 1 for i, o in enumerate(zs[sid]["outs"]) if o["stop"])
+        att = [e for e in evs if e["ev"] == "attempt"]
+        after = [e for e in att if e["n"] > stop_at]
+        res = next((e for e in evs if e["ev"] == "result"), None)
+        bad = None
+        if len(after) > 40:
+            bad = "%d further attempts after the exporter was shut down during attempt %d (every wait is 0)" % (len(after), stop_at)
+        elif res is None or res["cls"] != "shutdown":
+            bad = "Send ended with a %s error although the retry sequence was ended by the shutdown" % (res and res["cls"])
+        if bad:
+            c.violation("clause RetryIff / ShutdownClassified (initial_interval = 0): %s" % bad,
+                        replay_obj=dict(kind="zerowait", script=zs[sid]))
+            break
+    return len(by_sid)
+
+
 def run(c):
     q = c.quick()
 
@@ -187,7 +208,10 @@ def run(c):
         c.tlc_must_pass("RetrySender", "RetrySenderMC", cfg_text=mc_cfg(k), timeout=300, label="design")
         binp = c.go_build("retry", pkg="./cmd")
         n = 0
-        n += validate(c, binp, [rp["script"]] * 4, "replay", par=2, confirm=False)   # real time: a few runs
+        if rp.get("kind") == "zerowait":
+            n += zero_wait_stage(c, binp, [rp["script"]])
+        else:
+            n += validate(c, binp, [rp["script"]] * 4, "replay", par=2, confirm=False)   # real time: a few runs
         c.traces_validated = n
         return
 
@@ -233,6 +257,24 @@ def run(c):
         total += n
         nontrivial += sum(1 for s in scripts if len(s["outs"]) >= 2 or s["stop"]["n"] or s["cancel"]["n"])
         c.log("%s: %d scripts generated, %d run on the real code, %d traces accepted by TLC" % (name, len(pool), len(scripts), n))
+
+    # ---------------------------------------------------------------- zero back-off interval and shutdown
+    # initial_interval = 0 is accepted by validation: every wait is 0.  When the exporter is shut down during such a retry
+    # sequence the wait's select sees "stopped" and "timer" ready together, so ONE more attempt may follow (and another one
+    # with probability 1/2, ...), but "retried iff the exporter is not shutting down" must take effect: the number of attempts
+    # made after the shutdown is geometrically distributed, and Send ends with a shutdown-classified error.  The clause is
+    # statistical, so it is decided here and not by the trace specification (which admits each single continuation):
+    # more than 40 attempts after the shutdown has probability 2^-40 on code that looks at the stop signal in every wait.
+    # (seeded change C05-7: a fast path for delay <= 0 that only consults the context.)
+    zs = []
+    for stop_at in (1, 2, 3, 5):
+        for rep in range(3):
+            outs = [dict(kind="transient", thr=0, dur=0, sub="-", stop=(i + 1 == stop_at)) for i in range(400)]
+            zs.append(dict(cfg=dict(enabled=True, init=0, mult2=3, maxi=4, rnd2=(rep % 2), budget=0, tmo=0, deadline=NODL),
+                           outs=outs, stop=dict(n=0, when=""), cancel=dict(n=0, when=""), nominal=None))
+    nz = zero_wait_stage(c, binp, zs)
+    total += nz
+    c.extra["zero_interval_shutdown_scripts"] = nz
 
     c.traces_validated = total
     c.evaluations = total
